@@ -867,9 +867,19 @@ func runC14ProcRetry(c *fw.Case) {
 		per[k] = v
 	}
 	g.mu.Unlock()
+	// an id that occurs m times in the index is fetched up to m times; only the first f requests for it fail
+	occ := map[string]int{}
+	for _, ch := range idx.Chunks {
+		id := ch.ID.String()
+		occ["GET /"+id[:4]+"/"+id+".cacnk"]++
+	}
 	for k, v := range per {
-		if v > budget {
-			c.Violate("too-many-attempts", "desync cat (config+flags)", "effective error-retry=%d allows %d attempt(s), the server saw %d for %s", effective, budget, v, k)
+		allowed := budget
+		if f < budget {
+			allowed = f + occ[k]
+		}
+		if v > allowed {
+			c.Violate("too-many-attempts", "desync cat (config+flags)", "effective error-retry=%d allows %d attempt(s) per fetch, %d of the requests for the object fail and the index names it %d time(s): at most %d requests, the server saw %d for %s", effective, budget, f, occ[k], allowed, v, k)
 			return
 		}
 	}
